@@ -25,6 +25,9 @@ import (
 //	                                  x unknown position, o two acks in swapped order, u the same
 //	                                  position twice, r error; afterwards 'a' forever
 //	     dw<d>=<k>                    destination d's k-th Write (0-based) fails
+//	     db<d>=<b>                    destination d batches: it acknowledges nothing until b records are buffered
+//	                                  or Stop(lastPosition) is called (then everything buffered is acked at once),
+//	                                  as an SDK destination with size based batching does; d<d> is ignored then
 //	     q=<replies>                  DLQ plugin per record: o ok, w write error, n nack, e empty ack
 //	                                  reply, x unknown position, r Ack error; afterwards 'o'
 //	     sa<s>=<results>              source s's Ack results per call: o ok, r error, f io.EOF; then 'o'
@@ -46,6 +49,7 @@ type scenario struct {
 	dp       [][]procSpec // per destination
 	dReplies []string
 	dWriteF  []int
+	dBatch   []int
 	q        string
 	sa       []string
 	stopKind byte // 'n', 'g', 'f'
@@ -162,7 +166,13 @@ func parseScenario(line string) (*scenario, error) {
 	sc.dp = make([][]procSpec, sc.m)
 	sc.dReplies = make([]string, sc.m)
 	sc.dWriteF = make([]int, sc.m)
+	sc.dBatch = make([]int, sc.m)
 	for d := 0; d < sc.m; d++ {
+		if v, ok := kv["db"+strconv.Itoa(d)]; ok {
+			if sc.dBatch[d], err = strconv.Atoi(v); err != nil || sc.dBatch[d] < 0 {
+				return nil, fmt.Errorf("bad db")
+			}
+		}
 		if sc.dp[d], err = parseChain(kv["dp"+strconv.Itoa(d)]); err != nil {
 			return nil, err
 		}
@@ -225,6 +235,9 @@ func (sc *scenario) String() string {
 		}
 		if sc.dWriteF[d] >= 0 {
 			t = append(t, "dw"+strconv.Itoa(d)+"="+strconv.Itoa(sc.dWriteF[d]))
+		}
+		if sc.dBatch[d] > 0 {
+			t = append(t, "db"+strconv.Itoa(d)+"="+strconv.Itoa(sc.dBatch[d]))
 		}
 	}
 	if sc.q != "" {
@@ -380,7 +393,46 @@ func genScenario(r *gen.Rand, o *gen.Out, i int) string {
 			o.Count("dest-write-fails")
 		}
 	}
-	if r.Chance(1, 3) {
+	// batching family (graceful-stop drain): one destination rejects every record (so every record
+	// is settled through the DLQ and the sources can drain), the others buffer what they are given
+	// and acknowledge it only when their batch is full or at Stop(lastPosition) — with a batch
+	// larger than the run the acks arrive only after the stop request, during the node's drain.
+	sc.dBatch = make([]int, sc.m)
+	batching := !malformed && sc.m >= 2 && total > 0 && r.Chance(1, 3)
+	if batching {
+		o.Count("batching-destination")
+		dn := r.Intn(sc.m)
+		for d := 0; d < sc.m; d++ {
+			sc.dWriteF[d] = -1
+			sc.dp[d] = nil
+			if d == dn {
+				sc.dReplies[d] = strings.Repeat("n", total+4)
+				continue
+			}
+			sc.dReplies[d] = ""
+			if r.Chance(3, 4) {
+				sc.dBatch[d] = total + r.Range(1, 3)
+			} else {
+				sc.dBatch[d] = r.Range(2, total+1)
+			}
+		}
+		sc.winSize, sc.winThr = 0, 0
+		// no filters: a filtered record is acked (not rejected) by every branch, and the branch that
+		// batches only gets to it after the written records in front of it, which it acknowledges
+		// at Stop only — with a purely size based batching destination that run would never drain
+		nofilter := func(c []procSpec) {
+			for i := range c {
+				for j := range c[i].kinds {
+					c[i].kinds[j] = strings.ReplaceAll(c[i].kinds[j], "f", "s")
+				}
+			}
+		}
+		for s := range sc.sp {
+			nofilter(sc.sp[s])
+		}
+		nofilter(sc.pp)
+	}
+	if !batching && r.Chance(1, 3) {
 		var b strings.Builder
 		for j := 0; j < 6; j++ {
 			if r.Chance(1, 4) {
@@ -394,7 +446,7 @@ func genScenario(r *gen.Rand, o *gen.Out, i int) string {
 	}
 	sc.sa = make([]string, sc.n)
 	for s := 0; s < sc.n; s++ {
-		if r.Chance(1, 8) && sc.recs[s] > 0 {
+		if !batching && r.Chance(1, 8) && sc.recs[s] > 0 {
 			k := r.Intn(sc.recs[s])
 			sc.sa[s] = strings.Repeat("o", k) + string("rf"[r.Intn(2)])
 			o.Count("source-ack-faults")
@@ -407,6 +459,9 @@ func genScenario(r *gen.Rand, o *gen.Out, i int) string {
 		sc.stopKind, sc.stopAt = 'g', r.Range(0, total)
 	default:
 		sc.stopKind, sc.stopAt = 'f', r.Range(0, total)
+		if batching {
+			sc.stopKind = 'g'
+		}
 	}
 	o.Count("stop=" + string(sc.stopKind))
 	sc.gmp = []int{1, 2, 4, 16}[r.Intn(4)]
